@@ -363,7 +363,8 @@ def unrender(run, text: str):
         if t == "S":
             return common.from_cps(nxt())
         if t == "Y":
-            return bytes.fromhex(nxt())
+            h = nxt()
+            return b"" if h == "-" else bytes.fromhex(h)
         if t == "T":
             return tuple(val() for _ in range(int(nxt())))
         if t == "O":
